@@ -37,6 +37,11 @@ package yaml
 //@   decreases ysize(n)
 //@   ensures [node-or-error] result1 == nil ==> wfnode(result)
 //@   ensures [error-has-no-node] result1 != nil ==> result == nil
+// What the workflow text implies is only defined when a mapping names each key once (yaml.v3 itself
+// rejects repeated keys when it decodes into a map; decoding into yaml.Node bypasses that check).
+//@   ensures [the-keys-of-a-mapping-are-distinct] result1 == nil && result.(*node).typeID == TypeIDMap ==> \
+//@        (forall a int, b int :: 0 <= a && a < b && b < len(result.(*node).contents) && a % 2 == 0 && b % 2 == 0 ==> \
+//@            result.(*node).contents[a].(*node).value != result.(*node).contents[b].(*node).value)
 //@   loop 1 invariant [children] forall j int :: 0 <= j && j <= rangeidx ==> wfnode(contents[j])
 //@   loop 1 invariant [index] -1 <= rangeidx && len(contents) == len(n.Content)
 //@   loop 2 invariant [keys] i % 2 == 0 && 0 <= i && (forall k int :: 0 <= k && k < i && k < len(contents) && k % 2 == 0 ==> contents[k].(*node).typeID == TypeIDString)
